@@ -190,9 +190,17 @@ func RunSeq(sc SeqScenario, o SeqOpts) *SeqResult {
 		if !o.NoModel {
 			e = ApplyModel(m, sc.Cfg.Proto, op)
 		}
-		s.Do(op)
-		pends = append(pends, pend{s, len(s.Ops) - 1, i, e})
-		if s.Ended {
+		if op.Gone {
+			// the reply cannot be delivered: the server ends this connection; what the command did to
+			// the tiers must be as complete as if the client had stayed
+			s.Cli.GoAway()
+			s.Do(op)
+			sess[op.Port] = nil
+		} else {
+			s.Do(op)
+			pends = append(pends, pend{s, len(s.Ops) - 1, i, e})
+		}
+		if s.Ended && !op.Gone {
 			add(i, "connection-closed", "server ended the connection", op, e.Class, "closed")
 			break
 		}
